@@ -143,9 +143,11 @@ def tStep (st : TSt) (toks : List String) : TSt × String :=
       let span := (a.toNat?).getD st.defSpan
       let v := (parseHex b).getD []
       if op = "add" || op = "addspan" || op = "put" then
-        ({ st with must := TimeCache.add st.must k v span lo, may := TimeCache.add st.may k v span hi }, "ok")
+        let i := (TimeCache.I.mk st.must st.may).add k v span lo hi
+        ({ st with must := i.must, may := i.may }, "ok")
       else if op = "upsert" then
-        ({ st with must := TimeCache.upsert st.must k v span lo, may := TimeCache.upsert st.may k v span hi }, "ok")
+        let i := (TimeCache.I.mk st.must st.may).upsert k v span lo hi
+        ({ st with must := i.must, may := i.may }, "ok")
       else if op = "hoa" then
         let inMust := TimeCache.has st.must k
         let inMay := TimeCache.has st.may k
@@ -161,7 +163,9 @@ def tStep (st : TSt) (toks : List String) : TSt × String :=
     | _, _, _ => (st, "bad-op")
   | ["sweep", lo, hi] =>
     match lo.toNat?, hi.toNat? with
-    | some lo, some hi => ({ st with must := TimeCache.sweep st.must hi, may := TimeCache.sweep st.may lo }, "ok")
+    | some lo, some hi =>
+      let i := (TimeCache.I.mk st.must st.may).sweep lo hi
+      ({ st with must := i.must, may := i.may }, "ok")
     | _, _ => (st, "bad-op")
   | ["rm", k] =>
     match parseHex k with
